@@ -69,9 +69,10 @@ class Gen:
     """Type-directed random generator of mostly-accepted grammars."""
 
     def __init__(self, rng, lits=None, max_depth=4, p_descr=0.25, p_sub=0.15, p_nt=0.2, p_cmd=0.1, p_fb=0.12,
-                 defined=(), undefined=("U", "_"), cmd_texts=None):
+                 defined=(), undefined=("U", "_"), cmd_texts=None, descrs=None):
         self.rng = rng
         self.lits = lits or LITS
+        self.descrs = descrs or DESCRS
         self.max_depth = max_depth
         self.p_descr = p_descr
         self.p_sub = p_sub
@@ -89,10 +90,10 @@ class Gen:
         if allow_descr:
             # mostly one description per literal text (two different ones at one point are a C08 mistake)
             if t not in self.descr_of:
-                self.descr_of[t] = self.rng.choice(DESCRS) if self.rng.random() < self.p_descr else None
+                self.descr_of[t] = self.rng.choice(self.descrs) if self.rng.random() < self.p_descr else None
             d = self.descr_of[t]
             if self.rng.random() < 0.03:
-                d = self.rng.choice(DESCRS + [None])
+                d = self.rng.choice(self.descrs + [None])
         return ("lit", t, d)
 
     def leaf(self, in_sub=False):
@@ -126,7 +127,7 @@ class Gen:
             return ("sub", [head, tail])
         if tail[0] == "alt" and self.rng.random() < 0.25:
             # a unit suffix that carries the description of the whole option
-            return ("sub", [head, tail, ("lit", self.rng.choice(["k", "ms", "%"]), self.rng.choice(DESCRS))])
+            return ("sub", [head, tail, ("lit", self.rng.choice(["k", "ms", "%"]), self.rng.choice(self.descrs))])
         return ("sub", [head, tail])
 
     def expr(self, depth=0):
